@@ -57,7 +57,24 @@ Section Checker.
     wfb 64 b && wfb 64 t && disjb accept 64 b' b t.
 End Checker.
 
+(** The recursion that the doc comment of find_recursive_merge_commits (rewrite.rs:130-139)
+    gives as its definition, with Index::common_ancestors read as the greatest common
+    ancestors of the commit graph: for parent [pos] the merge base comes from ALL parents
+    merged so far. *)
+Definition merge_commits_spec (c : case) (ids : list nat) : option (list nat) :=
+  find_recursive_merge_commits (graph_common_ancestors (parents_of c)) 0%nat
+                               (S (length (c_commits c))) ids.
+Definition opt_nats_eqb (a : option (list nat)) (b : option (list N)) : bool :=
+  match a, b with
+  | Some x, Some y => list_eqb Nat.eqb x (nats y)
+  | _, _ => false
+  end.
+Definition merge_commits_ok (c : case) : bool :=
+  opt_nats_eqb (merge_commits_spec c (old_parents c)) (c_frmc_old c)
+  && opt_nats_eqb (merge_commits_spec c (nats (c_new_parents c))) (c_frmc_new c).
+
 Definition okb (c : case) : bool :=
+  merge_commits_ok c &&
   match c_old_base c, c_new_base c, c_rebased c, c_back c with
   | Some ob, Some nb, Some r, Some back =>
       let tab := c_tab c in
@@ -89,11 +106,6 @@ Definition check_case (c : case) : N :=
   let newp := nats (c_new_parents c) in
   let oldp := old_parents c in
   let ot := tree_of c target in
-  let opt_nats_eqb (a : option (list nat)) (b : option (list N)) :=
-      match a, b with
-      | Some x, Some y => list_eqb Nat.eqb x (nats y)
-      | _, _ => false
-      end in
   let opt_trees_eqb (a : option (list tree)) (b : option (list N)) :=
       match a, b with
       | Some x, Some y => trees_eqb x (map (dec tab) y)
